@@ -167,6 +167,9 @@ def gen_case(rng, tier, kind=None):
         d = rng.randint(1 if kind == "wccn" else 2, 4)
         nc = rng.randint(1, 6 if big else 3)
         n = rng.randint(d + nc + 2, d + nc + (150 if big else 25))
+        if kind == "wccn" and rng.random() < 0.08:
+            nc = rng.choice([17, 33, 65, 128, 130, 200])
+            n = nc * 2 + rng.randint(d + 3, d + 20)
         rs = np.random.RandomState(rng.getrandbits(32))
         mix = rs.randn(d, d) + 2 * np.eye(d)
         X = sig6(rs.randn(n, d) @ mix * 10.0 ** rng.uniform(-1, 1) + rs.uniform(-2, 2, size=d))
